@@ -36,6 +36,7 @@ properties! {
     "C06" => c06,
     "C07" => c07,
     "C08" => c08,
+    "C09" => c09,
     "C10" => c10,
     "C11" => c11,
     "C12" => c12,
@@ -43,6 +44,8 @@ properties! {
     "C14" => c14,
     "C15" => c15,
     "C16" => c16,
+    "C17" => c17,
+    "C18" => c18,
 }
 
 /// Replay one stored case (a replay/regression JSON written by `Ctx::finish`).
